@@ -25,7 +25,7 @@ type zzRespTmpl struct {
 }
 
 var zzRespTemplates = []zzRespTmpl{
-	{"HTTP/1.1 200 OK\r\nContent-Type: t\r\nContent-Length: 3\r\nX-A: V\r\n\r\nBBB", 200, true, false, true},
+	{"HTTP/1.1 200 OK\r\nServer: srv\r\nContent-Type: t\r\nContent-Encoding: e\r\nContent-Length: 3\r\nX-A: V\r\nSet-Cookie: k=v\r\n\r\nBBB", 200, true, false, true},
 	{"HTTP/1.1 200 OK\r\nTransfer-Encoding: chunked\r\nX-A: V\r\n\r\n2\r\nBB\r\n1\r\nB\r\n0\r\nX-T: w\r\n\r\n", 200, true, false, true},
 	{"HTTP/1.1 204 No Content\r\nX-A: V\r\n\r\n", 204, false, false, true},
 	{"HTTP/1.1 304 Not Modified\r\nX-A: V\r\nContent-Length: 7\r\n\r\n", 304, false, false, true},
@@ -50,6 +50,7 @@ type zzRespView struct {
 	err2     error
 	status2  int
 	body2    []byte
+	hdr2     []byte
 }
 
 func zzReadStreamAll(r io.Reader) ([]byte, error) {
@@ -83,6 +84,12 @@ func zzDumpHeader(r *protocol.Response) []byte {
 }
 
 func zzClientRead(wire []byte, splits []int, stream bool, maxBody int, second bool) zzRespView {
+	return zzClientRead2(wire, splits, stream, maxBody, second, false)
+}
+
+// reuse: the second response is read into the object that held the first one (as a caller that
+// keeps one Response for a sequence of exchanges does)
+func zzClientRead2(wire []byte, splits []int, stream bool, maxBody int, second, reuse bool) zzRespView {
 	nc := zz.NewNetConn(wire)
 	if len(splits) > 0 {
 		nc.Frag = func(rem int) int {
@@ -127,11 +134,21 @@ func zzClientRead(wire []byte, splits []int, stream bool, maxBody int, second bo
 		}
 	}
 	if second && v.err == nil {
-		var r2 protocol.Response
-		v.err2 = ReadHeaderAndLimitBody(&r2, conn, 0)
+		r2 := &protocol.Response{}
+		if reuse {
+			r2 = &r
+		}
+		v.err2 = ReadHeaderAndLimitBody(r2, conn, 0)
 		if v.err2 == nil {
 			v.status2 = r2.StatusCode()
 			v.body2 = append([]byte(nil), r2.Body()...)
+			v.hdr2 = zzDumpHeader(r2)
+			v.hdr2 = append(v.hdr2, '|')
+			v.hdr2 = append(v.hdr2, r2.Header.Server()...)
+			v.hdr2 = append(v.hdr2, '|')
+			v.hdr2 = append(v.hdr2, r2.Header.ContentType()...)
+			v.hdr2 = append(v.hdr2, '|')
+			v.hdr2 = append(v.hdr2, r2.Header.ContentEncoding()...)
 		}
 	}
 	return v
@@ -191,6 +208,13 @@ func ZZ_C11_H2() {
 		}
 		if second {
 			zz.Assert("next-response-intact", whole.err2 == nil && whole.status2 == 202 && string(whole.body2) == "k")
+			if !stream {
+				// a caller that keeps one Response object for consecutive exchanges sees the same
+				// second response as one that uses a fresh object
+				re := zzClientRead2(append([]byte(nil), wire...), nil, stream, maxBody, true, true)
+				zz.Cover("object-reused", true)
+				zz.Assert("next-response-identical-in-a-reused-object", re.err2 == nil && re.status2 == whole.status2 && bytes.Equal(re.body2, whole.body2) && bytes.Equal(re.hdr2, whole.hdr2))
+			}
 		}
 	}
 	// segmentation independence
